@@ -769,10 +769,15 @@ class XsdElement(XsdComponent, ParticleMixin,
             if content and len(content) == 1 and content[0][0] == 1:
                 value, content = content[0][1], None
 
-            if self.fixed is not None and \
-                    (len(obj) > 0 or value is not None and self.fixed != value):
-                reason = _("must have the fixed value %r") % self.fixed
-                context.validation_error(validation, self, reason, obj)
+            if self.fixed is not None:
+                fixed_value = value
+                if fixed_value is None and obj.text and not context.validation_only:
+                    # Character data of whitespaces is not kept in decoded content
+                    fixed_value = obj.text.strip()
+
+                if len(obj) > 0 or fixed_value is not None and self.fixed != fixed_value:
+                    reason = _("must have the fixed value %r") % self.fixed
+                    context.validation_error(validation, self, reason, obj)
 
         else:
             if len(obj):
